@@ -595,7 +595,7 @@ func checkC09(w *World, r *Report) {
 	checkEventLogNilSafe(w, r, "C09.R8")
 	r.Rule("C09.R7", "the event reaches the subscribers through inbox rings whose element transfers are sound (C14.R2-R5); a stopping actor is unregistered before any user code runs, so a send that finds it gone dead-letters (C10.R6)", 8)
 	importRules(w, r, checkC14, "C14", "C09.R7", func(o *Obligation) bool {
-		return o.Rule == "C14.R2" || o.Rule == "C14.R3" || o.Rule == "C14.R4" || o.Rule == "C14.R5"
+		return o.Rule == "C14.R1" || o.Rule == "C14.R2" || o.Rule == "C14.R3" || o.Rule == "C14.R4" || o.Rule == "C14.R5"
 	})
 	importRules(w, r, checkC10, "C10", "C09.R7", func(o *Obligation) bool { return o.Rule == "C10.R6" })
 	// the event stream's and the subscribers' inboxes wake up for every accepted event (C03.R1-R3, R7); an inbound
@@ -1235,6 +1235,7 @@ func checkC11(w *World, r *Report) {
 			r.Fail("C11.R4", "Response.PID", "Response.PID returns the pid it was registered under", w.fnPos(rpid), why)
 		}
 	}
+	checkResponseChanOpen(w, r, "C11.R4")
 	// R5: "the reply reaches its own requester": the responder handles one message at a time (its Context.sender is the
 	// sender of the message being handled), which is the single-worker protocol of C02
 	r.Rule("C11.R5", "the responding actor runs one Receive at a time: worker token protocol (C02.R1-R4)", 6)
@@ -1449,7 +1450,7 @@ func checkC12(w *World, r *Report) {
 	// R5: per-subscriber order is the order of the subscriber's inbox ring
 	r.Rule("C12.R5", "events reach a subscriber through a ring whose element transfers respect the ring origin (C14.R2-R4) and a batch loop that visits elements in order (C01.R4)", 8)
 	importRules(w, r, checkC14, "C14", "C12.R5", func(o *Obligation) bool {
-		return o.Rule == "C14.R2" || o.Rule == "C14.R3" || o.Rule == "C14.R4" || o.Rule == "C14.R5"
+		return o.Rule == "C14.R1" || o.Rule == "C14.R2" || o.Rule == "C14.R3" || o.Rule == "C14.R4" || o.Rule == "C14.R5"
 	})
 	r.Rule("C12.R7", "no event's Log method can panic in the event stream (the restarted stream would have lost every subscriber)", 1)
 	checkEventLogNilSafe(w, r, "C12.R7")
@@ -1763,4 +1764,40 @@ func checkRegistryAdd(w *World, r *Report, rule string, a *sendAnchors) {
 		}
 	}
 	r.Check(okU, rule, fname(a.regAdd)+":event-outside-lock", "the duplicate event is published after the lock was released", site, "BroadcastEvent runs under the registry lock")
+}
+
+// checkResponseChanOpen: a reply can arrive at any time (late, or a second one, from a local actor or from the remote's
+// reader goroutine); Response.Send does a non-blocking send on the result channel. That is only safe while nobody
+// ever closes that channel: a send on a closed channel panics, select/default or not.
+func checkResponseChanOpen(w *World, r *Report, rule string) {
+	resp := w.Named("actor", "Response")
+	if resp == nil {
+		r.Unknown(rule, "Response.result:never-closed", "the result channel of a Response is never closed", "-", "actor.Response not found")
+		return
+	}
+	var closers []string
+	for _, fn := range w.Funcs {
+		if !w.isLib(fn) {
+			continue
+		}
+		for _, in := range w.insOf(fn) {
+			c, ok := in.(*ssa.Call)
+			if !ok {
+				continue
+			}
+			args, isClose := isBuiltinCall(c, "close")
+			if !isClose || len(args) != 1 {
+				continue
+			}
+			if ld, ok := w.resolve(args[0]).(*ssa.UnOp); ok {
+				if fa, ok := ld.X.(*ssa.FieldAddr); ok {
+					if _, n := fieldName(fa); sameNamed(n, resp) {
+						closers = append(closers, fname(fn)+" at "+w.pos(c.Pos()))
+					}
+				}
+			}
+		}
+	}
+	r.Check(len(closers) == 0, rule, "Response.result:never-closed", "the result channel of a Response is never closed (late and surplus replies are sent to it without blocking)", w.fnPos(w.Method("actor", "Response", "Send")),
+		"closed by "+strings.Join(closers, "; ")+": a reply that arrives afterwards (a late one, or the second of two) is a send on a closed channel and panics on the replier's goroutine — for a remote reply that is the stream handler, and the node dies")
 }
